@@ -195,6 +195,7 @@ def run_case(case):
         obl = Obl(ctx)
         with patch.Patched(mods, fs), common.quiet():
             pck = PlotfileCooker('plt')
+            done = []          # the calls made so far on this reader, in order: a failing call is replayed after them
             for fs_expr, lv_expr, bs_expr in combos:
                 env = {'np': np}
                 fsel, lv, bsel = eval(fs_expr, env), eval(lv_expr, env), eval(bs_expr, env)
@@ -243,7 +244,8 @@ def run_case(case):
                     sig = classify(fs_expr, lv_expr, bs_expr, fexp, bexp, problem)
                     if sig not in viol:
                         viol[sig] = {'signature': sig, 'what': obl.failed[nfail][0],
-                                     'call': [fs_expr, lv_expr, bs_expr]}
+                                     'call': [fs_expr, lv_expr, bs_expr], 'prefix': list(done)}
+                done.append([fs_expr, lv_expr, bs_expr])
             # histories: the field-selection and level-data objects are kept and read from repeatedly (what was read
             # before must not change what a read returns)
             for fs_expr in hist_fsels:
